@@ -612,7 +612,7 @@ fn main() {
         }
     }
     if cells.len() < 200 || classes.len() < 2 {
-        machinery("vacuous crash table");
+        vacuous("vacuous crash table");
     }
     let distinct: BTreeSet<(Origin, Topo)> = cells.iter().map(|(o, t, _)| (*o, *t)).collect();
     let cov = J::obj()
